@@ -35,7 +35,7 @@ ASSUMPTIONS = [
     "a default array with non-negative entries may coincide with a molecule label; such coincidences are counted but not judged (statement ambiguous)",
     "whether search_molecules may write into the caller's default array is not judged",
 ]
-REQUIRED = {"reinsert_checked": 500, "reinsert_unsorted": 100, "search_checked": 300, "search_with_default_array": 60, "search_bonded": 100, "search_filtered_out": 50}
+REQUIRED = {"reinsert_after_isotope_substitution": 30, "reinsert_checked": 500, "reinsert_unsorted": 100, "search_checked": 300, "search_with_default_array": 60, "search_bonded": 100, "search_filtered_out": 50}
 SHARD_TIMEOUT = {"quick": 600, "thorough": 2400}
 
 
@@ -93,7 +93,7 @@ def make_atoms(rng, n, rich=True):
     return atoms, which
 
 
-def check_reinsert(rec: Rec, atoms, which, idx):
+def check_reinsert(rec: Rec, atoms, which, idx, isotope=None):
     from quansino.utils.atoms import reinsert_atoms
 
     idx = [int(i) for i in idx]
@@ -101,6 +101,17 @@ def check_reinsert(rec: Rec, atoms, which, idx):
     deleted = atoms[idx]
     work = atoms.copy()
     del work[idx]
+    if isotope is not None and "masses" not in atoms.arrays and 0 < len(idx) < len(atoms):
+        # the atoms that stayed are given explicit masses while the others are away (an isotope substitution): the
+        # restored system is the original with the same substitution, the returning atoms keeping their own masses
+        keep = [i for i in range(len(atoms)) if i not in set(idx)]
+        work.set_masses(isotope[: len(keep)])
+        expected = atoms.copy()
+        m = expected.get_masses()
+        m[keep] = isotope[: len(keep)]
+        expected.set_masses(m)
+        before = snap_atoms(expected)
+        rec.count("reinsert_after_isotope_substitution")
     rec.evaluations += 1
     wit = {"natoms": len(atoms), "indices": idx, "arrays": sorted(atoms.arrays), "dtypes": {k: str(v.dtype) for k, v in atoms.arrays.items()}}
     try:
@@ -151,7 +162,7 @@ def run_rrand(spec, rec):
             idx = np.sort(idx)
         elif rng.random() < 0.2:
             idx = np.sort(idx)[::-1]
-        check_reinsert(rec, atoms, which, idx)
+        check_reinsert(rec, atoms, which, idx, isotope=rng.uniform(1, 250, n) if rng.random() < 0.15 else None)
 
 
 # ----------------------------------------------------------------------------- molecule search
